@@ -87,6 +87,15 @@ theorem fanout_sound (fs : List Fanout) (e : EinsumSpec) (p : Path) (h : fanoutO
   simp only [fanoutOK, List.all_eq_true, decide_eq_true_eq] at h
   exact h f hf
 
+/-- **Product loop bounds.** A passing `product…` constraint bounds the product of the iteration counts of all spatial
+loops of that dimension over the constraint's rank variables (strictly for `product<` / `product>`). -/
+theorem product_bound_sound (lb : LoopBound) (e : EinsumSpec) (p : Path) (hp : isProduct lb.op = true)
+    (h : loopBoundOK lb e p = true) :
+    let cs := (spatialCounts lb.comp lb.dim e.ranks p.nodes).filter (fun (r, _) => lb.rvs.contains r)
+    cs = [] ∨ cmp lb.op (prod (cs.map (·.2))) lb.value = true := by
+  simp only [loopBoundOK, hp, if_true, Bool.or_eq_true, List.isEmpty_iff] at h
+  exact h
+
 /-- **Keep sets.** `keepOK` says every tensor a memory's keep set requires (for this Einsum) is held by a storage
 node of that memory on the branch. -/
 theorem keep_sound (ks : List Keep) (p : Path) (h : keepOK ks p = true) :
@@ -144,6 +153,10 @@ def exFused : Path := ⟨"Matmul0",
   [Node.storage "MainMemory" ["T0", "W0"], Node.loop "m" 2, Node.storage "GlobalBuffer" ["T1"], Node.loop "m" 1,
    Node.loop "n0" 1, Node.loop "n1" 1, Node.compute "MAC" "Matmul0"]⟩
 example : fusedLoopsOK ["T1"] (some 1) (some 1) exFused = true ∧ fusedLoopsOK ["T1"] (some 0) none exFused = false := by decide
+example : loopBoundOK ⟨"MACArray", "X", ["m", "n0"], Op.plt, 4⟩ ⟨"E", [("m", 4), ("n0", 4)], []⟩
+    ⟨"E", [Node.spatial "m" 2 "MACArray" "X", Node.spatial "n0" 2 "MACArray" "X", Node.compute "MAC" "E"]⟩ = false := by decide
+example : loopBoundOK ⟨"MACArray", "X", ["m", "n0"], Op.ple, 4⟩ ⟨"E", [("m", 4), ("n0", 4)], []⟩
+    ⟨"E", [Node.spatial "m" 2 "MACArray" "X", Node.spatial "n0" 2 "MACArray" "X", Node.compute "MAC" "E"]⟩ = true := by decide
 example : chainOK 6 [4, 1] = false := by decide
 example : chainOK 6 [3] = false := by decide
 example : counts 12 [6, 2, 1] = [2, 3, 2] ∧ prod (counts 12 [6, 2, 1]) = 12 := by decide
